@@ -12,7 +12,8 @@ LEVEL = "proof"
 def gen_program(r, big=False):
     nv = r.choice([1, 2, 2, 3, 3, 4])
     ws = r.choice([0, 0, 1])
-    lines = ["vcpus %d %d" % (nv, ws)]
+    lazy = r.randrange(1, nv) if nv > 1 and ws == 0 and r.random() < 0.3 else -1     # that vCPU blocks outside photon, then finishes at once
+    lines = ["vcpus %d %d %d" % (nv, ws, lazy)]
     n = r.randint(2, 10 if big else 7)
     names = ["T%d" % i for i in range(n)]
     child = set(x for x in names[1:] if r.random() < 0.3)
@@ -33,12 +34,15 @@ def gen_program(r, big=False):
                 later = names[i + 1:]          # joins go to later threads only: no join cycles (a program-level deadlock)
                 ops.append(("j%s" % r.choice(later)) if later else "y")
             else:
-                ops.append("y")
+                ops.append("k")      # interrupt whoever is blocked joining me: the join must keep waiting
         for c, p in creators.items():
             if p == t:
                 ops.insert(r.randint(0, len(ops)), "c%s" % c)
         joinable = 1 if r.random() < 0.6 else 0
-        lines.append("thread %s %s %d %d %d %s" % (t, "-" if t in child else str(r.randrange(nv)), joinable, r.choice([0, 1, 1]),
+        home = r.randrange(nv)
+        if home == lazy:
+            home = 0
+        lines.append("thread %s %s %d %d %d %s" % (t, "-" if t in child else str(home), joinable, r.choice([0, 1, 1]),
                                                     r.randint(0, 99), " ".join(ops)))
     return lines
 
